@@ -263,7 +263,7 @@ func vfC16Cfg(name string) vfCfg {
 // allowed results of a call that was pending or issued when its own connection was closed locally
 func vfClosedErr(err error) bool {
 	return err != nil && (errors.Is(err, ErrConnClosed) || errors.Is(err, io.EOF) || errors.Is(err, net.ErrClosed) ||
-		errors.Is(err, context.Canceled) || strings.Contains(err.Error(), "closed"))
+		strings.Contains(err.Error(), "closed"))
 }
 
 func vfC16Established(t *testing.T, res *vfResult, c vfC16Case) {
@@ -578,6 +578,9 @@ func vfC16Handshake(t *testing.T, res *vfResult, c vfC16Case) {
 			violate("call-did-not-return:"+vfCallClass(call.Name)+":handshake:"+c.Action, fmt.Sprintf("%s has not returned 90 s after the action (its context ended at 40 s)", call.Name))
 		}
 	}
+	if acted && strings.HasPrefix(c.Action, "close") && hx.Returned.Load() && hx.Err != nil && !vfClosedErr(hx.Err) && !x.Conn.isHandshakeCompletedSuccessfully() {
+		violate("handshake-interrupted-by-close-wrong-error", fmt.Sprintf("HandshakeContext interrupted by Close returned %q, neither a closed nor an EOF error", hx.Err))
+	}
 	if acted && strings.HasPrefix(c.Action, "close") && hx.Returned.Load() && hx.Err == nil && !x.Conn.isHandshakeCompletedSuccessfully() {
 		violate("handshake-nil-on-closed-connection", "HandshakeContext returned nil on a connection closed mid-handshake without completing")
 	}
@@ -884,6 +887,9 @@ func vfC16ParkedWrite(res *vfResult, iter int) {
 	}
 	res.Count("parked_writes_checked", 1)
 	res.Seen("x_parked_write_results", vfErrNorm(w.err))
+	if interrupted && w.err != nil && !vfClosedErr(w.err) {
+		res.Violate("C16:write-interrupted-by-close-wrong-error", fmt.Sprintf("a Write interrupted by Close returned %q, neither a closed nor an EOF error; %s", w.err, cfg.FP()), map[string]any{"iter": iter, "parked": true})
+	}
 	res.NonTrivial(fmt.Sprintf("parked/%d", iter))
 	p.Close()
 }
